@@ -548,12 +548,17 @@ class Array:
                 for array in arrayiterable:
                     lenincrease += self._append(array=array, fd=fd)
             except Exception as exception:
-                if fd.closed:
+                reopened = fd.closed
+                if reopened:
                     fd = open(file=self._datapath, mode=self._accessmode)
                 fd.flush()
                 self._update_len(lenincrease=lenincrease)
                 fd.truncate(self._size * self._dtype.itemsize)
-                fd.close()
+                # the file may be shared with an enclosing open_array
+                # context, in which later appends should still work
+                fd.flush()
+                if reopened:
+                    fd.close()
                 s = f"{exception}\nAppending of data did not (completely) " \
                     f"succeed. Shape of array was {oldshape} and is now " \
                     f"{self._shape} after an increase in length " \
